@@ -208,6 +208,9 @@ PROFILES = {
     'refuse': {'refuse': True},
     'keys': {'keys': True},
     'nested': {'nested': True},
+    'swap': {'swap': True},
+    # the cache file lives in a directory of its own that the build has to create (C12, C01, C02)
+    'subcache': {'subcache': True, 'p_clean': 0.35, 'p_crash': 0.25, 'p_double_clean': 0.3},
     'threads': {'threads': True},
     'straggler': {'straggler': True},
     # C17: calls on builders whose function has ended (sequentially: inside later code of the build and after build returns)
@@ -509,14 +512,72 @@ def make_straggler(seed, profile):
     return {'id': '%s-%d' % (profile, seed), 'cache': ['k'], 'universe': [], 'threads': True, 'prog': progs, 'steps': steps}
 
 
+SWAP_A = [['x'], ['d', 'y'], ['d', 'e'], ['g', 'w']]                       # layout A: these paths are output files
+SWAP_B = [['x', 'q'], ['d', 'y', 'r'], ['d', 'e', 'z'], ['g']]              # layout B: they are directories (or vice versa)
+
+
+def make_swap(seed, profile):
+    """Output paths change between file and directory across builds (and a failed target becomes a directory
+    later in the same build), with failing builds, external changes and cleans in between."""
+    rnd = random.Random('swap:%s' % seed)
+    prog = {}
+    for lay in 'AB':
+        prog['w' + lay] = [{'s': 'write', 'c': 'c1', 'sz': 4}, {'s': 'return'}]
+        prog['r' + lay] = [{'s': 'write', 'c': 'c2', 'sz': 4}, {'s': 'raise'}]
+        prog['q' + lay] = [{'s': 'q', 'kind': 'list_dir', 'p': ['d']}, {'s': 'q', 'kind': 'is_dir', 'p': ['x']},
+                           {'s': 'write', 'c': 'c3', 'sz': 6}, {'s': 'return'}]
+
+    def root(lay, crash):
+        ts = SWAP_A if lay == 'A' else SWAP_B
+        r = []
+        for t in rnd.sample(ts, rnd.randrange(1, len(ts) + 1)):
+            r.append({'s': 'bf', 'p': t, 'f': rnd.choice(['w', 'w', 'r', 'q']) + lay, 'args': [0],
+                      'cmp': rnd.choice(['METADATA', 'HASH']), 'catch': True})
+            if rnd.random() < 0.4:
+                r.append({'s': 'q', 'kind': rnd.choice(['is_dir', 'is_file', 'list_dir', 'walk', 'exists']),
+                          'p': rnd.choice([['d'], ['x'], ['d', 'y'], ['d', 'e'], ['g'], []])})
+        if rnd.random() < 0.2:
+            # a target whose function raises, then (same build) an output below that path: the failed path is
+            # not an output, so this is within "no output path is a proper ancestor of another output path"
+            a, b = rnd.choice(list(zip(SWAP_A, SWAP_B))[:3])
+            r.append({'s': 'bf', 'p': a, 'f': 'r' + lay + 'x', 'args': [7], 'catch': True})
+            r.append({'s': 'bf', 'p': b, 'f': 'w' + lay + 'x', 'args': [8], 'catch': True})
+            prog['r' + lay + 'x'] = prog['r' + lay]
+            prog['w' + lay + 'x'] = prog['w' + lay]
+            r = [st for st in r if st['s'] != 'bf' or st['p'] not in (a, b) or st['f'].endswith('x')]
+        r.append({'s': 'raise'} if crash else {'s': 'return'})
+        return r
+    steps = []
+    for p in rnd.sample(SWAP_A + SWAP_B + [['d', 'fz']], rnd.randrange(0, 3)):
+        steps.append({'op': 'ext', 'do': 'write', 'p': p, 'c': 'c9', 'sz': 4})
+    lay = rnd.choice('AB')
+    for b in range(rnd.choice([2, 3, 4])):
+        steps.append({'op': 'build', 'name': 'B', 'vers': {}, 'root': root(lay, rnd.random() < 0.35)})
+        if rnd.random() < 0.6:
+            lay = 'B' if lay == 'A' else 'A'
+        if rnd.random() < 0.3:
+            p = rnd.choice(SWAP_A + SWAP_B)
+            steps.append(rnd.choice([{'op': 'ext', 'do': 'delete', 'p': p}, {'op': 'ext', 'do': 'write', 'p': p, 'c': 'c8', 'sz': 4},
+                                     {'op': 'ext', 'do': 'mkdir', 'p': p}]))
+        if rnd.random() < 0.15:
+            steps.append({'op': 'clean', 'name': 'B'})
+    if rnd.random() < 0.4:
+        steps.append({'op': 'clean', 'name': 'B'})
+    return {'id': '%s-%d' % (profile, seed), 'cache': ['k'], 'universe': [['x'], ['d'], ['d', 'y'], ['d', 'e'], ['g'], ['x', 'q'],
+            ['d', 'y', 'r'], ['d', 'e', 'z'], ['g', 'w']], 'prog': prog, 'steps': steps}
+
+
 def make_nested(seed, profile):
     """Structured three-level programs (top subbuild/build_file -> mid build_files -> leaf build_files that
     succeed or raise and are caught), with directory queries placed after nested calls; rebuilt unchanged
     (and after single mutations), optionally cleaned.  Targets the replay overlay / directory bookkeeping."""
     rnd = random.Random('nested:%s' % seed)
-    leaves = [list(p) for p in LEAVES + [['d', 'e', 'w'], ['g', 'h', 'v'], ['d', 'u']]]
+    leaves = [list(p) for p in LEAVES + [['d', 'e', 'w'], ['g', 'h', 'v'], ['d', 'u'], ['d', 'e', 'f', 'w'],
+                                         ['g', 'h', 'i', 'v'], ['d', 'e', 'f', 'j', 'u']]]
     rnd.shuffle(leaves)
-    dirs = [['d'], ['d', 'e'], ['g'], ['g', 'h'], []]
+    if rnd.random() < 0.5:      # outer targets shallow, inner targets deeper in the same branch
+        leaves.sort(key=lambda p: (p[0], -len(p)))
+    dirs = [['d'], ['d', 'e'], ['g'], ['g', 'h'], [], ['d', 'e', 'f'], ['g', 'h', 'i']]
     prog = {'leafW': [{'s': 'write', 'c': 'c1', 'sz': 4}, {'s': 'return'}],
             'leafR': [{'s': 'write', 'c': 'c2', 'sz': 4}, {'s': 'raise'}],
             'leafR0': [{'s': 'raise'}]}
@@ -540,7 +601,7 @@ def make_nested(seed, profile):
         body.insert(rnd.randrange(len(body) + 1), {'s': 'write', 'c': 'c3', 'sz': 4})
         if rnd.random() < 0.5:
             body.append(dq())
-        body.append({'s': 'raise'} if rnd.random() < 0.15 else {'s': 'return'})
+        body.append({'s': 'raise'} if rnd.random() < 0.3 else {'s': 'return'})
         prog['mid%d' % m] = body
     top = []
     for m in range(2):
@@ -575,6 +636,8 @@ def make_nested(seed, profile):
 
 def make_scenario(seed, profile='general'):
     P = PROFILES[profile]
+    if P.get('swap'):
+        return make_swap(seed, profile)
     if P.get('nested'):
         return make_nested(seed, profile)
     if P.get('straggler'):
@@ -588,7 +651,7 @@ def make_scenario(seed, profile='general'):
     if P.get('structured') and seed % 2 == 1:
         return make_structured(seed, profile)
     rnd = random.Random('%s:%s' % (profile, seed))
-    cache = ['k']
+    cache = ['c', 'k'] if P.get('subcache') else ['k']
     qpaths = list(UNIVERSE)
     targets = list(LEAVES)
     if P.get('foreign'):
